@@ -47,6 +47,13 @@ with the previous solve and with the fresh-process run made with the same option
 A block is a body (A or B) plus optional settings lines: X = MaxTime only, Xc / Xf = MaxTime and a coarse /
 fine Err_Tolerance, X0 = no line (parser defaults: horizon 0, tolerance 1e-8), Xt = coarse tolerance only; a
 solver that is re-parsed with a block lacking a line must fall back to the defaults, not to the previous block.
+Series groups: besides the main series a solver reports the step-trace group (TimeSeriesStepTrace /
+GetTimeSeries(group_of_series='step')) and the initial steady-state group (TimeSeriesInitialSteadyState).  They are
+compared with the fresh-process reference as well (C17_HistoryIndependent): the step group whenever the solve
+iterated its traced period (reference = the same block / model, own function and option, traced at the same period,
+alone, logging off), the initial group whenever the steady-state search ran.  Weaker reading used: after an
+UNTRACED solve the step group is not compared (the code leaves the trace of an earlier traced solve in place; the
+group is then not something this solve computed).
 Conformance clauses (DRIFT only): id counter and logger registry after every action, cached
 VariableList, number of ('k', ...) entries SetInitialConditions has appended to Parser.Exogenous
 (one per solve: the list grows, the series do not change), text of Model.FinalEquations.
@@ -107,20 +114,53 @@ def _act(a, x='', b='', k=0):
     return {'a': a, 'x': x, 'b': b, 'k': k}
 
 
-REFERENCE_HIST = {
-    'SIM': [_act('NewModel', 'SIM'), _act('DeclareHead', 'SIM'), _act('DeclareRest', 'SIM'), _act('Main', 'SIM')],
-    'TWO': [_act('NewModel', 'TWO'), _act('DeclareHead', 'TWO'), _act('DeclareRest', 'TWO'), _act('Main', 'TWO')],
-}
-for _blk in sorted(BLOCKS):
-    for _body in (('none', 'f1', 'f2') if BLOCKS[_blk]['func'] else ('',)):
-        for _ss in (False, True):
-            _h = []
-            if _body in ('f1', 'f2'):
-                _h.append(_act('AddFunction', 's1', _body))
-            if _ss:
-                _h.append(_act('SetSteady', 's1', '', 1))
-            _h += [_act('Reparse', 's1', _blk), _act('Solve', 's1', _blk)]
-            REFERENCE_HIST[_blk + (':' + _body if _body else '') + ('+ss' if _ss else '')] = _h
+def ref_hist(key):
+    """history of the fresh-process reference run named key = <model>[+tr<k>] | <block>[:<body>][+ss][+tr<k>]"""
+    parts = key.split('+')
+    name = parts[0]
+    ss = 'ss' in parts[1:]
+    tr = [int(p[2:]) for p in parts[1:] if p.startswith('tr')]
+    if name in MODEL_HORIZON:
+        h = [_act('NewModel', name), _act('DeclareHead', name), _act('DeclareRest', name)]
+        if tr:
+            h.append(_act('SetTrace', name, '', tr[0]))
+        return h + [_act('Main', name)]
+    blk, _, body = name.partition(':')
+    h = []
+    if body in ('f1', 'f2'):
+        h.append(_act('AddFunction', 's1', body))
+    if ss:
+        h.append(_act('SetSteady', 's1', '', 1))
+    if tr:
+        h.append(_act('SetTrace', 's1', '', tr[0]))
+    return h + [_act('Reparse', 's1', blk), _act('Solve', 's1', blk)]
+
+
+def needed_ref_keys(hists):
+    """the reference runs needed to judge these histories: walk each history with the configuration every
+    solver / model has when it computes a result"""
+    keys = set(MODEL_HORIZON)
+    for h in hists:
+        cfg = {}
+        for a in h:
+            c = cfg.setdefault(a['x'], {'block': '', 'body': 'none', 'steady': False, 'trace': 0})
+            if a['a'] == 'AddFunction':
+                c['body'] = a['b']
+            elif a['a'] == 'SetSteady':
+                c['steady'] = (a['k'] == 1)
+            elif a['a'] == 'SetTrace':
+                c['trace'] = a['k']
+            elif a['a'] == 'Reparse':
+                c['block'] = a['b']
+            elif a['a'] in ('Solve', 'SolveAgain') and c['block']:
+                keys.add(ref_key(c['block'], c['body'], c['steady']))
+                if 1 <= c['trace'] <= BLOCKS[c['block']]['horizon']:
+                    keys.add(ref_key(c['block'], c['body'], c['steady'], c['trace']))
+            elif a['a'] == 'Main' and 1 <= c['trace'] <= MODEL_HORIZON[a['x']]:
+                keys.add('%s+tr%d' % (a['x'], c['trace']))
+    return keys
+
+
 STEADY_MAXTIME = 40
 
 
@@ -139,10 +179,11 @@ def user_f2(z):
 USER_FUNCTIONS = {'f1': user_f1, 'f2': user_f2}
 
 
-def ref_key(block, body, steady):
-    """name of the fresh-process reference of a block solved by a solver that registered `body` itself and
-    has the steady-state option `steady`"""
-    return (block + ':' + body if BLOCKS[block]['func'] else block) + ('+ss' if steady else '')
+def ref_key(block, body, steady, trace=0):
+    """name of the fresh-process reference of a block solved by a solver that registered `body` itself, has the
+    steady-state option `steady` and traces period `trace` (0 = none)"""
+    return (block + ':' + body if BLOCKS[block]['func'] else block) + ('+ss' if steady else '') + \
+        ('+tr%d' % trace if trace else '')
 
 
 def snapshot(holder):
@@ -167,7 +208,7 @@ def blank(ev, x='', b='', k=0):
     return {'ev': ev, 'x': x, 'b': b, 'k': k, 'ok': True, 'exc': '', 'same_keys': True, 'same_vals': True,
             'full': True, 'same_prev': True, 'same_eqs': True, 'varlist': [], 'nk': 0, 'id1': 0,
             'logs': {}, 'diff': '', 'traced': False, 'hasfunc': False, 'remnants': [], 'exp_ok': True, 'steady': False,
-            'ss': False, 'hz': 0, 'tol': 'default'}
+            'ss': False, 'hz': 0, 'tol': 'default', 'same_step': True, 'same_init': True}
 
 
 def compare(ev, snap, ref, horizon):
@@ -190,6 +231,19 @@ def compare(ev, snap, ref, horizon):
     if not ev['full'] and not diff:
         diff = 'lengths %s' % sorted(set(len(v) for v in snap.values()))
     ev['diff'] = diff[:300]
+
+
+def compare_group(ev, field, what, snap, ref):
+    """a further series group (step trace / initial steady state) against the reference"""
+    if snap != ref:
+        ev[field] = False
+        if not ev['diff']:
+            keys = sorted(set(snap) ^ set(ref))
+            if keys:
+                ev['diff'] = ('%s group: keys differ %s (here %d, alone %d series)' % (what, keys[:6], len(snap), len(ref)))[:300]
+            else:
+                k = [k for k in sorted(snap) if snap[k] != ref[k]][0]
+                ev['diff'] = ('%s group: %s here %s alone %s' % (what, k, snap[k][:4], ref[k][:4]))[:300]
 
 
 def two_head(st):
@@ -308,6 +362,12 @@ def execute(hist, refs, base):
                         ev['same_eqs'] = (eqs == refs[x]['eqs'])
                     ts = mod.EquationSolver.TraceStep
                     ev['traced'] = ts is not None and 1 <= ts <= MODEL_HORIZON[x]
+                    step = snapshot(mod.EquationSolver.TimeSeriesStepTrace)
+                    if refs is None:
+                        ev['snap_step'] = step
+                        ev['snap_init'] = {}
+                    elif ev['traced']:
+                        compare_group(ev, 'same_step', 'step', step, refs['%s+tr%d' % (x, ts)]['step'])
             elif a == 'RegisterLogs':
                 Logger.register_standard_logs(base)
             elif a == 'Cleanup':
@@ -343,10 +403,19 @@ def execute(hist, refs, base):
                     rk = ref_key(st['block'], st['body'], st['steady'])
                     ref = None if refs is None else refs[rk]['series']
                     compare(ev, snap, ref, blk['horizon'])
+                    step = snapshot(sol.TimeSeriesStepTrace)
+                    init = snapshot(sol.TimeSeriesInitialSteadyState)
                     if refs is None:
                         ev['snap'] = snap
+                        ev['snap_step'] = step
+                        ev['snap_init'] = init
                     else:
                         ev['exp_ok'] = refs[rk]['ok']
+                        if ev['exp_ok'] and ev['traced']:
+                            compare_group(ev, 'same_step', 'step', step,
+                                          refs[ref_key(st['block'], st['body'], st['steady'], ts)]['step'])
+                        if ev['exp_ok'] and st['steady']:
+                            compare_group(ev, 'same_init', 'initial', init, refs[rk]['init'])
                     if a == 'SolveAgain' and st['prev'] is not None:
                         ev['same_prev'] = (snap == st['prev'])
                     st['prev'] = snap
@@ -442,29 +511,30 @@ def run_children(jobs, wd, workers=None):
     return out
 
 
-def references(wd, blocks=None):
-    """Each distinct model / block (per function body and steady-state option) alone in a fresh subprocess;
-    blocks: the block names that occur in the histories to be judged (None = all)."""
-    names = sorted(n for n in REFERENCE_HIST
-                   if n in MODEL_HORIZON or blocks is None or n.split('+')[0].split(':')[0] in blocks)
-    got = run_children([{'items': [{'tid': 'ref:' + n, 'hist': REFERENCE_HIST[n]}], 'refs': None} for n in names], wd)
+def references(wd, keys):
+    """Each distinct model / block (per function body, steady-state option and traced period) alone in a fresh
+    subprocess; keys: the reference names the histories to be judged need (needed_ref_keys)."""
+    names = sorted(keys)
+    got = run_children([{'items': [{'tid': 'ref:' + n, 'hist': ref_hist(n)}], 'refs': None} for n in names], wd)
     refs = {}
     for n in names:
         evs = got['ref:' + n]
         last = evs[-1]
         bad = [e for e in evs if not e['ok']]
-        if n.split('+')[0].endswith(':none') and (BLOCKS[n.split(':')[0]]['horizon'] >= 1 or n.endswith('+ss')):
+        if n.split('+')[0].endswith(':none') and (BLOCKS[n.split(':')[0]]['horizon'] >= 1 or '+ss' in n):
             # a block that calls f, solved by a solver without f: alone it must fail with NameError (as soon as a
             # period is iterated: not with horizon 0 and no steady-state search)
             if len(bad) != 1 or bad[0] is not last or not last['exc'].startswith('NameError') or 'snap' not in last:
                 raise core.MachineryError('reference run of %s: expected NameError in the solve, got %s' % (
                     n, json.dumps(bad[:1] or last)[:400]))
-            refs[n] = {'series': last['snap'], 'eqs': '', 'ok': False}
+            refs[n] = {'series': last['snap'], 'eqs': '', 'ok': False, 'step': last['snap_step'],
+                       'init': last['snap_init']}
             continue
         if bad or not last['full'] or 'snap' not in last:
             raise core.MachineryError('reference run of %s alone in a fresh process failed: %s' % (
                 n, json.dumps(bad[:1] or last)[:400]))
-        refs[n] = {'series': last['snap'], 'eqs': last.get('eqs', ''), 'ok': True}
+        refs[n] = {'series': last['snap'], 'eqs': last.get('eqs', ''), 'ok': True, 'step': last['snap_step'],
+                   'init': last['snap_init']}
         keys = set(last['snap'])
         if n.split('+')[0].split(':')[0] in BLOCKS:
             dec = set(BLOCKS[n.split('+')[0].split(':')[0]]['declared'])
@@ -473,7 +543,7 @@ def references(wd, blocks=None):
                     n, sorted(keys)))
         else:
             ph = last.get('placeholders', [])
-            if n == 'TWO' and (len(ph) != 3 or not all(p.startswith('_') for p in ph)):
+            if n.split('+')[0] == 'TWO' and (len(ph) != 3 or not all(p.startswith('_') for p in ph)):
                 raise core.MachineryError('model TWO did not receive placeholder names: %r' % ph)
             leaked = [p for p in ph if p in last['eqs'] or any(p in key for key in keys)]
             if leaked:
@@ -487,7 +557,8 @@ def first_bad(events):
             if e['ok']:
                 return e
             continue
-        if not (e['ok'] and e['same_keys'] and e['same_vals'] and e['full'] and e['same_prev']):
+        if not (e['ok'] and e['same_keys'] and e['same_vals'] and e['full'] and e['same_prev']
+                and e['same_step'] and e['same_init']):
             return e
     return None
 
@@ -519,6 +590,11 @@ def signature(clause, events):
     if clause == 'C17_ResolveIdempotent':
         return 'resolve-changes-series:' + e['b'] + (':steady-state-option-on' if e['ss'] else '')
     what = 'model:' + e['x'] if e['ev'] == 'Main' else 'block:' + e['b']
+    if e['same_keys'] and e['same_vals'] and e['full']:
+        if not e['same_step']:
+            return 'step-trace-group-differs:' + what
+        if not e['same_init']:
+            return 'initial-steady-state-group-differs:' + what
     if not e['same_keys']:
         return 'key-set-differs:' + what
     return 'series-differ:%s%s%s' % (what, ':traced' if e['traced'] else '', ':steady-state-option-on' if e['ss'] else '')
@@ -681,8 +757,8 @@ def run(rep):
     wd = core.workdir('c17')
     try:
         t0 = time.time()
-        with concurrent.futures.ThreadPoolExecutor(max_workers=len(cfgs)) as ex:
-            results = list(ex.map(lambda c: core.tlc('MC_Process', c, workers=1, tag='c17'), cfgs))
+        with concurrent.futures.ThreadPoolExecutor(max_workers=min(len(cfgs), 8)) as ex:
+            results = list(ex.map(lambda c: core.tlc('MC_Process', c, workers=1, tag='c17', timeout=14400), cfgs))
         _phase(rep, 'tlc_exhaustive', t0)
         seen = set()
         behs = []
@@ -701,7 +777,7 @@ def run(rep):
             del res.printed[:]
             res.stdout = ''
         t0 = time.time()
-        refs = references(wd, set(a['b'] for b in behs for a in b['hist'] if a['a'] == 'Reparse'))
+        refs = references(wd, needed_ref_keys(b['hist'] for b in behs))
         _phase(rep, 'reference_runs', t0)
         rep.extra['reference_runs'] = len(refs)
         round_size = 8000 if quick else 16000
@@ -724,8 +800,7 @@ def replay(path):
     case = data['case']
     wd = core.workdir('c17r')
     try:
-        used = set(a['b'] for h in list(case.get('prefix', [])) + [case['hist']] for a in h if a['a'] == 'Reparse')
-        refs = references(wd, used)
+        refs = references(wd, needed_ref_keys(list(case.get('prefix', [])) + [case['hist']]))
         items = [{'tid': 'p%d' % i, 'hist': h} for i, h in enumerate(case.get('prefix', []))]
         items.append({'tid': 'case', 'hist': case['hist']})
         observed = run_children([{'items': items, 'refs': refs}], wd)
